@@ -128,8 +128,40 @@ def run(tier):
             if not (fortran.same(a, b) or (a is None and b is None)):
                 rep.violation("table:%s" % letter, "fortran_meaning", {"format_letter": letter, "text": t, "table_reader": repr(a), "reader": repr(b)})
                 break
+    # read-function selection: two parsers over ONE specification, opened one after the other with different tables
+    import os
+    import tempfile
+    spec = {"rec": [["a", "b", "c", "d"], ["10.3e", "12.5e", "5d", "10.2f"]]}
+    line = "%10s%12s%5s%10s" % ("0.3D06", "1.23400-105", " 1 2", "**********")
+    want_f = [fff.fortran_read_float("0.3D06".rjust(10)), fff.fortran_read_float("1.23400-105".rjust(12)),
+              fff.fortran_read_int(" 1 2".rjust(5)), fff.fortran_read_float("**********")]
+    for order in (("default", "fortran"), ("fortran", "default"), ("fortran", "fortran")):
+        fd, path = tempfile.mkstemp(prefix="verif-c16-")
+        os.close(fd)
+        try:
+            got = {}
+            for which in order:
+                tab = fff.default_read_function if which == "default" else fff.fortran_read_function
+                p_ = fff.fixed_format_file(path, "w", spec, tab)
+                try:
+                    got[which] = p_.parse_string(line, "rec")
+                except Exception as ex:
+                    got[which] = "raised " + repr(ex)
+                p_.close()
+            rep.case(("selection", order))
+            g = got["fortran"]
+            if isinstance(g, str) or not all(fortran.same(a, b) or (a is None and b is None) for a, b in zip(g, want_f)):
+                rep.violation("read-function-selection:%s-then-%s" % order, "fortran_meaning",
+                              {"line": line, "parsers_opened": list(order), "fortran_table_parser_returned": repr(g), "expected": repr(want_f)})
+        finally:
+            os.unlink(path)
     for t in texts[:3] + texts[-3:]:
-        rep.sample({"text": t, "fortran_float": repr(fff.fortran_float(t)), "fortran_int": repr(fff.fortran_int(t))})
+        def safe(fn_, x_):
+            try:
+                return repr(fn_(x_))
+            except Exception as ex_:
+                return "raised " + repr(ex_)
+        rep.sample({"text": t, "fortran_float": safe(fff.fortran_float, t), "fortran_int": safe(fff.fortran_int, t)})
     rep.extra["c2s_calls_classified"] = len(calls)
     rep.rule = ("S2C: every character-class string up to length %d (9 classes) concretised %d times; C2S: rendered "
                 "reals (exponents -300..300, 1..17 digits, all output styles), padded integers, asterisk/blank fields, "
